@@ -51,6 +51,7 @@ let () =
       let subst_tts : (int, (int * vt) list) Hashtbl.t = Hashtbl.create 8 in
       let gc_pending = ref false and dropall_gc = ref false in
       let zok = ref false in
+      let ztaut : Model.ref list ref = ref [] in
       let order_req : int list option ref = ref None in
       let prev_v2l : int array ref = ref [||] in
       let last_gc = ref (-1) in
@@ -171,7 +172,15 @@ let () =
               | [ "VAR"; dst; v ] -> expect_bool "C02" p.pstep what dst (vt_of_bfun n (Model.var_s (nat (int_of_string v))))
               | [ "NVAR"; dst; v ] ->
                 expect_bool "C02" p.pstep what dst (vt_of_bfun n (Model.lift1 not (Model.var_s (nat (int_of_string v)))))
-              | [ "CONST"; dst; b ] -> expect_bool "C02" p.pstep what dst (vt_of_bfun n (Model.const_s (b = "1")))
+              | [ "CONST"; dst; b ] ->
+                expect_bool "C02" p.pstep what dst (vt_of_bfun n (Model.const_s (b = "1")));
+                (* ZBDD: t_edge is taut(0) of the chain the extracted ztaut_chain finds in the table *)
+                (match !ztaut, List.assoc_opt (slot_of dst) ps.handles with
+                 | t0 :: _, Some e when kname = "zbdd" && b = "1" && not (List.mem (slot_of dst) (List.concat_map (fun q -> if q.pstep > p.pstep then q.pdst else []) !pending)) ->
+                   check "C09";
+                   if not (Zfam.ref_eq t0 e.Model.eref) then
+                     fail p.pstep "C09" "corr" (Printf.sprintf "t_edge is %s, taut(0) of the model chain %s" (show_edge e) (Zfam.show_ref t0))
+                 | _ -> ())
               | [ ("NOT" | "NOTO"); dst; a ] ->
                 (match get a with
                  | Some ta -> expect_bool "C02" p.pstep what dst (vt_of_bfun n (Model.lift1 not (bf ta)))
@@ -427,7 +436,12 @@ let () =
         (* C09: the hypothesis of the model theorems (well-formed ZBDD table with both terminals) *)
         if kname = "zbdd" && List.mem "C09" !props then (
           zok := Model.zbdd_ok_b s;
-          if not !zok then fail step "C09" "corr" "zbdd_ok_b false on a ZBDD snapshot (hypothesis of the C09 theorems)");
+          if not !zok then fail step "C09" "corr" "zbdd_ok_b false on a ZBDD snapshot (hypothesis of the C09 theorems)"
+          else (
+            check "C09";
+            match Zfam.taut_chain ps with
+            | Ok ch -> ztaut := ch
+            | Error m -> ztaut := []; fail step "C09" "prop" ("tautology chain: " ^ m)));
         tt_n := n;
         (* persistence: a handle that was not reassigned denotes the same function *)
         Hashtbl.iter
